@@ -4,15 +4,26 @@ Driver for C20: reads the cases the Go harness produced by running the REAL auth
      db-collision` when the recorded deviation clause `Spec.Dev_db_collision` explains exactly this failure),
   2. compares the observed output with the MODEL (Kap/Model/C20.lean) — a difference is `MISMATCH`.
 A case gets the worst verdict of its lines (SPECFAIL > MISMATCH > KNOWN > ok).
+
+Strings are BYTE strings: every token is unescaped to bytes and read as Latin-1 (byte b = the character with code
+b, `B.emb`), never UTF-8-decoded, so paths that are not valid UTF-8 are judged like any other; on every path op the
+BYTE instance of the model (`B.clean`, `B.dir`, `B.apiResource`, `B.databaseResource`, `B.authorizeAction` over
+`B.newUser`, Kap/Model/C20Bytes.lean) is run on the raw bytes as well and must give the observed bytes.
 -/
 import Kap.Spec.C20
+import Kap.Model.C20Bytes
 open Kap Kap.C20
 
 namespace Kap.C20.Drv
 
 def str (l : List Char) : String := String.ofList l
-def unescL (tok : String) : Option (List Char) := (unesc tok).map String.toList
-def escL (l : List Char) : String := esc (str l)
+/-- Token → bytes → Latin-1 reading (total on byte strings; no UTF-8 decoding anywhere). -/
+def unescL (tok : String) : Option (List Char) := (unescRaw tok).map B.embL
+/-- Back from the Latin-1 reading to bytes (inverse of `B.embL` on its image). -/
+def toB (l : List Char) : B.Bytes := l.map (fun c => c.toNat.toUInt8)
+def escL (l : List Char) : String := if l.isEmpty then "%" else String.join ((toB l).map escByte)
+/-- The token does not denote valid UTF-8 (such strings were outside the tie before the byte instance). -/
+def notUtf8 (tok : String) : Bool := (unesc tok).isNone
 
 def parsePrivs (s : String) : Option (List Nat) :=
   if s.isEmpty then some [] else (s.splitOn "+").mapM String.toNat?
@@ -112,6 +123,10 @@ def checkAz (st : St) (line : String) (a : Account) (res : Path) (wants : List N
         | some clause => st := st.sf clause s!"{line} privilege {w} observed {c}"
         | none => pure ()
   if obs != model then st := st.mm s!"{line}: model {model} observed {obs}"
+  -- the byte instance, on the raw bytes of the table and of the resource
+  let ub := B.newUser a.admin (a.grants.map (fun g => (toB g.1, g.2)))
+  let modelB := String.ofList (wants.map (fun w => letter (B.authorizeAction ub (toB res) w)))
+  if obs != modelB then st := st.mm s!"{line}: byte model {modelB} observed {obs}"
   for w in wants do
     let bs := azBranches a res w
     st := st.brs bs
@@ -168,6 +183,51 @@ def httpBranches (cfg : Cfg) (req : Req) (out : HttpOut) : List String :=
      | none => [])
   b1 ++ b2
 
+def mkCfg (st : St) (ra : String) : Cfg :=
+  { requireAuth := ra == "1" || ra == "3", exposePprof := ra == "2" || ra == "3",
+    svc := { users := st.users, subs := st.subs }, extra := harnessRoutes }
+
+/-- Judge one observed HTTP exchange (URL path as the handler received it). -/
+def judgeHttp (st : St) (l : String) (cfg : Cfg) (req : Req) (code sv wr : String) : St := Id.run do
+  let mut st := st
+  let p := req.path
+  let out := serveHTTP cfg 2 req
+  let served := sv == "1"; let wrote := wr == "1"
+  if served && !Spec.servedOK cfg.requireAuth cfg.exposePprof cfg.svc req then
+    st := st.sf "served-only-authenticated-and-authorised" l
+  if wrote && !Spec.wroteOK databaseResource cfg.requireAuth cfg.svc req then
+    st := st.sf "write-checks-api-and-database" l
+  if (served || wrote) && muxCleanPath p ≠ p then
+    st := st.sf "path-trick-never-served" l
+  -- whatever is served was authorised as a resource below /api (never /database/…, never the root)
+  if (served || wrote) && (Spec.nodeOf (Spec.apiNodeOf p)).map (·.head?) ≠ some (some "api".toList) then
+    st := st.sf "served-resource-below-api" l
+  -- the byte instance agrees on what the mux and the authorisation see of the path
+  if toB (muxCleanPath p) ≠ B.muxCleanPath (toB p) ∨ toB (apiResource (trimPrefix p Gen.basePath)) ≠ B.apiResource (B.trimBase (toB p)) then
+    st := st.mm s!"{l}: byte model of cleanPath/APIResource differs"
+  let model := s!"{out.status} {boolTok out.served} {boolTok out.wrote}"
+  if s!"{code} {sv} {wr}" != model then st := st.mm s!"{l}: model {model}"
+  st := st.brs (httpBranches cfg req out)
+  if (Spec.nodeOf (Spec.apiNodeOf p)).map (·.head?) ≠ some (some "api".toList) ∧ muxCleanPath p = p then
+    st := st.br "http-clean-url-resource-outside-api"
+  if cfg.requireAuth && (served || wrote) then st := { st with nontrivial := true }
+  return st
+
+def hasSub (s : List Char) (sub : String) : Bool := ((String.ofList s).splitOn sub).length > 1
+
+/-- What a raw request target exercises. -/
+def rawBranches (t p : List Char) (code : String) (servedOrWrote : Bool) : List String :=
+  let tl := t.map Char.toLower
+  (if hasSub tl "%2f" then ["raw-encoded-slash"] else []) ++
+  (if hasSub tl "%2e" then ["raw-encoded-dot"] else []) ++
+  (if hasSub tl "%25" then ["raw-double-encoded"] else []) ++
+  (if t.any (fun c => c.toNat ≥ 128) then ["raw-high-byte"] else []) ++
+  (if p.any (fun c => c.toNat ≥ 128) ∧ !t.any (fun c => c.toNat ≥ 128) then ["raw-encoded-high-byte"] else []) ++
+  (if (String.fromUTF8? (ByteArray.mk (toB p).toArray)).isNone then ["url-path-not-utf8"] else []) ++
+  (if p ≠ t ∧ code == "301" then ["raw-decoded-then-redirected"] else []) ++
+  (if p ≠ t ∧ servedOrWrote then ["raw-decoded-then-served"] else []) ++
+  (if p = t then ["raw-nothing-to-decode"] else [])
+
 def judge (_id : String) (lines : Array String) : Verdict := Id.run do
   let mut st : St := {}
   for l in lines do
@@ -184,11 +244,12 @@ def judge (_id : String) (lines : Array String) : Verdict := Id.run do
       let some g := parseGrants g | return .badop l
       if !Spec.wfGrants g then st := st.mm s!"ill-formed table (a privilege outside the five): {l}"
       st := { st with subs := (tok, { admin := adm == "1", grants := g }) :: st.subs.filter (fun e => e.1 ≠ tok) }
-    | ["az", n, r] =>
+    | ["az", n, rTok] =>
       let some n := unescL n | return .badop l
-      let some r := unescL r | return .badop l
+      let some r := unescL rTok | return .badop l
       let [o] := obs | return .badop l
       st := checkAz st l (st.account n) r fivePrivs o true
+      if notUtf8 rTok then st := st.br "bytes-not-utf8-resource"
     | ["azn", n, r] =>
       let some n := unescL n | return .badop l
       let some r := unescL r | return .badop l
@@ -202,8 +263,8 @@ def judge (_id : String) (lines : Array String) : Verdict := Id.run do
       let some p := p.toNat? | return .badop l
       let [o] := obs | return .badop l
       st := checkAz st l (st.account n) r [p] o (Spec.validPriv p)
-    | ["clean", p] =>
-      let some p := unescL p | return .badop l
+    | ["clean", pTok] =>
+      let some p := unescL pTok | return .badop l
       let [o] := obs | return .badop l
       let some o := unescL o | return .badop l
       -- spec: the cleaned path is the canonical spelling of the node the path denotes
@@ -211,12 +272,15 @@ def judge (_id : String) (lines : Array String) : Verdict := Id.run do
       | some n => if o ≠ canonical n then st := st.sf "clean-is-canonical-spelling" s!"{l}: canonical {escL (canonical n)}"
       | none => if isAbs o then st := st.sf "relative-stays-relative" l
       if o ≠ clean p then st := st.mm s!"{l}: model {escL (clean p)}"
+      if toB o ≠ B.clean (toB p) then st := st.mm s!"{l}: byte model {escL (B.embL (B.clean (toB p)))}"
       st := st.brs (cleanBranches p)
+      if notUtf8 pTok then st := (st.br "bytes-not-utf8-clean")
     | ["dir", p] =>
       let some p := unescL p | return .badop l
       let [o] := obs | return .badop l
       let some o := unescL o | return .badop l
       if o ≠ dir p then st := st.mm s!"{l}: model {escL (dir p)}"
+      if toB o ≠ B.dir (toB p) then st := st.mm s!"{l}: byte model {escL (B.embL (B.dir (toB p)))}"
       st := st.br "dir"
     | ["api", p] =>
       let some p := unescL p | return .badop l
@@ -226,6 +290,7 @@ def judge (_id : String) (lines : Array String) : Verdict := Id.run do
       | some n => if o ≠ canonical n then st := st.sf "api-resource-canonical" s!"{l}: canonical {escL (canonical n)}"
       | none => pure ()
       if o ≠ apiResource p then st := st.mm s!"{l}: model {escL (apiResource p)}"
+      if toB o ≠ B.apiResource (toB p) then st := st.mm s!"{l}: byte model {escL (B.embL (B.apiResource (toB p)))}"
       st := st.br (if (Spec.nodeOf ("/api/".toList ++ p)).map (·.head?) = some (some "api".toList) then "api-below-root" else "api-escaped-root")
     | ["dbres", d] =>
       let some d := unescL d | return .badop l
@@ -239,6 +304,7 @@ def judge (_id : String) (lines : Array String) : Verdict := Id.run do
           st := st.sf "database-is-one-element" l
       | none => st := st.sf "database-is-one-element" l
       if o ≠ databaseResource d then st := st.mm s!"{l}: model {escL (databaseResource d)}"
+      if toB o ≠ B.databaseResource (toB d) then st := st.mm s!"{l}: byte model {escL (B.embL (B.databaseResource (toB d)))}"
       st := st.br (if d = [] then "db-empty" else if d.contains '/' then "db-dirty" else "db-clean")
     | ["dbpair", a, b] =>
       let some a := unescL a | return .badop l
@@ -259,27 +325,43 @@ def judge (_id : String) (lines : Array String) : Verdict := Id.run do
       let some p := unescL p | return .badop l
       let some db := unescL db | return .badop l
       let some au := parseAuth cred | return .badop l
-      let cfg : Cfg := { requireAuth := ra == "1" || ra == "3", exposePprof := ra == "2" || ra == "3",
-                         svc := { users := st.users, subs := st.subs }, extra := harnessRoutes }
       let req : Req := { method := m, path := p, auth := au, db := db }
-      let out := serveHTTP cfg 2 req
       match obs with
-      | [code, sv, wr] =>
-        let served := sv == "1"; let wrote := wr == "1"
-        if served && !Spec.servedOK cfg.requireAuth cfg.exposePprof cfg.svc req then
-          st := st.sf "served-only-authenticated-and-authorised" l
-        if wrote && !Spec.wroteOK databaseResource cfg.requireAuth cfg.svc req then
-          st := st.sf "write-checks-api-and-database" l
-        if (served || wrote) && muxCleanPath p ≠ p then
-          st := st.sf "path-trick-never-served" l
-        -- whatever is served was authorised as a resource below /api (never /database/…, never the root)
-        if (served || wrote) && (Spec.nodeOf (Spec.apiNodeOf p)).map (·.head?) ≠ some (some "api".toList) then
-          st := st.sf "served-resource-below-api" l
-        let model := s!"{out.status} {boolTok out.served} {boolTok out.wrote}"
-        if s!"{code} {sv} {wr}" != model then st := st.mm s!"{l}: model {model}"
-        st := st.brs (httpBranches cfg req out)
-        if cfg.requireAuth && (served || wrote) then st := { st with nontrivial := true }
+      | [code, sv, wr] => st := judgeHttp st l (mkCfg st ra) req code sv wr
       | _ => st := st.mm s!"{l}: unexpected observation"
+    | ["httpraw", ra, m, t, cred, db] =>
+      let some m := unescL m | return .badop l
+      let some t := unescL t | return .badop l
+      let some db := unescL db | return .badop l
+      let some au := parseAuth cred | return .badop l
+      match obs with
+      | [pth, code, sv, wr] =>
+        match parseTarget t with
+        | none =>
+          -- net/http refuses the request line: it answers 400 itself, no handler of kapacitor runs
+          if pth != "badurl" then st := st.mm s!"{l}: model: net/http refuses this target"
+          else if s!"{code} {sv} {wr}" != "400 0 0" then st := st.sf "refused-target-never-served" l
+          st := st.br "raw-refused-by-net-http"
+        | some p =>
+          if pth == "badurl" then st := st.mm s!"{l}: model: URL path {escL p}"
+          else
+            let some o := unescL pth | return .badop l
+            if o ≠ p then st := st.mm s!"{l}: model: URL path {escL p}"
+            -- the property is judged on the path the handler RECEIVED
+            let req : Req := { method := m, path := o, auth := au, db := db }
+            st := judgeHttp st l (mkCfg st ra) req code sv wr
+            st := st.brs (rawBranches t o code (sv == "1" || wr == "1"))
+            if o ≠ t.takeWhile (· ≠ '?') && (sv == "1" || wr == "1") then st := { st with nontrivial := true }
+      | _ => st := st.mm s!"{l}: unexpected observation"
+    | ["addroute", pv, pat] =>
+      let some pat := unescL pat | return .badop l
+      let [o] := obs | return .badop l
+      let model := if (addRoutePattern (if pv == "1" then preview else base) pat).isSome then "ok" else "err"
+      if o != model then st := st.mm s!"{l}: model {model}"
+      -- spec: a pattern that does not begin with '/' is never registered (hypothesis of served_resource_below_api)
+      if o == "ok" && pat ≠ [] && pat.head? ≠ some '/' then st := st.sf "route-pattern-begins-with-slash" l
+      if o == "ok" && !viaAddRoute ((if pv == "1" then preview else base) ++ pat) then st := st.sf "route-pattern-begins-with-slash" l
+      st := st.br (if o == "ok" then "addroute-ok" else "addroute-refused")
     | _ => return .badop l
   match st.specfail, st.mismatch, st.known with
   | some (c, d), _, _ => return .specfail c d
